@@ -229,7 +229,11 @@ def obligations(tier):
     for arb in ("switch", "priority", "trusted", "weighted"):
         for n in (1, 2):
             add(arb, n, "%s/n%d" % (arb, n), [TK_ALL] * n)
-        if not quick:
+        if quick:
+            # three inputs with numeric truths: ordering effects between three candidates (priority / trusted tie-breaks)
+            if arb in ("priority", "trusted"):
+                add(arb, 3, "%s/n3/quarter-quarter-quarter" % arb, [["quarter"], ["quarter"], ["quarter"]])
+        else:
             # three inputs: one shard per combination of truth kinds
             for k0 in TK_3:
                 for k1 in TK_3:
